@@ -2,6 +2,7 @@ package props
 
 import (
 	"fmt"
+	"math/rand/v2"
 	"os"
 	"path/filepath"
 	"regexp"
@@ -480,6 +481,7 @@ func runC17(env *Env, s Scenario) {
 		modes = append(modes, m)
 		by[n] = m
 	}
+	grantRng := rand.New(rand.NewPCG(sc.DevSeed, 0x6a17))
 	for _, n := range names {
 		l := levels[n]
 		if l.PreviousPriv == "" {
@@ -487,7 +489,8 @@ func runC17(env *Env, s Scenario) {
 		}
 		par := by[l.PreviousPriv]
 		if l.Escalate != "" {
-			if l.EscalateAuth {
+			// (one authenticated level in five is entered without the device asking for the secret)
+			if l.EscalateAuth && grantRng.IntN(5) != 0 {
 				pw := &peer.Mode{Name: "pw:" + n, NoEcho: true, Cmds: map[string]*peer.Reply{sc.Secret: {Next: n}}}
 				pw.Prompt = canonicalPrompt(l.EscalatePrompt, nil, nil)
 				if pw.Prompt == "" {
